@@ -1,4 +1,5 @@
 import SwcVerif.Model.Mst
+import SwcVerif.Proofs.Mst
 import Mathlib.Algebra.Order.Field.Rat
 import Mathlib.Tactic.Linarith
 /-! # C17 — point-cloud tree construction yields the intended spanning tree
@@ -6,6 +7,8 @@ import Mathlib.Tactic.Linarith
 Theorems about the model `Mst.step` / `Mst.run` of the greedy loop of `PointsToCuntzMST.__call__`
 (tied to the code by the `c17.mst` correspondence on the code's own distance matrix). `dis` is any
 `n × n` matrix of rationals, `bf` the balancing factor, `limit` the branching limit (`none` = `-1`). -/
+set_option linter.unusedSectionVars false
+set_option linter.unusedVariables false
 namespace C17
 open Mst
 
@@ -45,13 +48,66 @@ structure Inv (dis : List (List Rat)) (n : Nat) (limit : Option Nat) (excl : Boo
   count : ∀ i, i < n → s.furc.getD i 0 = children s i ∧
     (∀ k, limit = some k → 1 ≤ k → (excl = false ∨ i ≠ 0) → s.furc.getD i 0 ≤ k)
 
+private theorem init_conn (n i : Nat) (h : i < n) : Conn (init n) i ↔ i = 0 := by
+  show ((List.range n).map (· == 0)).getD i false = true ↔ i = 0
+  rw [getD_range_map _ n i false h]; simp
+
 theorem init_inv (dis : List (List Rat)) (n : Nat) (hn : 0 < n) (limit : Option Nat) (excl : Bool)
     (hk : ∀ k, limit = some k → 1 ≤ k) :
     Inv dis n limit excl (init n) := by
-  sorry
+  have hfurc : ∀ i, i < n → (init n).furc.getD i 0 = 0 := fun i h =>
+    getD_replicate n i 0 0 h
+  have hpid : ∀ i, i < n → (init n).pid.getD i 0 = -1 := fun i h =>
+    getD_replicate n i (-1 : Int) 0 h
+  refine ⟨?_, ?_, ?_, ?_, ?_, ?_, ?_⟩
+  · simp [init]
+  · exact ⟨(init_conn n 0 hn).mpr rfl, hpid 0 hn, getD_replicate n 0 (0 : Rat) 1 hn⟩
+  · intro i j hi hj
+    have hsat : ¬ Saturated limit excl (init n) i := by
+      rintro ⟨k, h1, h2, _⟩
+      have := hk k h1
+      rw [hfurc i hi] at h2; omega
+    rw [init_conn n i hi, init_conn n j hj]
+    have : Open (init n) i j ↔ (if i = 0 then j == 0 else true) = false := by
+      unfold Open init
+      simp only
+      rw [getD_range_map _ n i [] hi, getD_range_map _ n j true hj]
+    rw [this]
+    by_cases h : i = 0
+    · subst h; simp [hsat]
+    · simp [h]
+  · intro j hj hj0
+    rw [init_conn n j hj]
+    exact ⟨fun h => absurd h hj0, fun _ => hpid j hj⟩
+  · intro j hj hc
+    rw [init_conn n j hj] at hc
+    subst hc
+    exact ⟨0, Nat.zero_le _, rfl⟩
+  · exact ⟨0, hn, (init_conn n 0 hn).mpr rfl, hfurc 0 hn⟩
+  · intro i hi
+    rw [hfurc i hi]
+    refine ⟨?_, fun k _ _ _ => Nat.zero_le _⟩
+    unfold children
+    rw [filter_eq_zero]
+    intro a ha
+    have ha' : a < n := by simpa [init] using ha
+    rw [hpid a ha']
+    omega
 
 /-- number of connected points -/
 def nconn (s : St) : Nat := (s.conn.filter id).length
+
+private theorem exists_open (dis : List (List Rat)) (n : Nat) (limit : Option Nat) (excl : Bool) (s : St)
+    (hi : Inv dis n limit excl s) (hk : ∀ k, limit = some k → 1 ≤ k) (hmore : nconn s < n) :
+    ∃ i j, i < n ∧ j < n ∧ Open s i j := by
+  obtain ⟨i, hin, hci, hfi⟩ := hi.fresh
+  have hlen := hi.len.2.2.2.1
+  obtain ⟨j, hj, hcj⟩ := exists_false_of_filter_lt s.conn (by unfold nconn at hmore; omega)
+  refine ⟨i, j, hin, by omega, (hi.mask i j hin (by omega)).mpr ⟨hci, ?_, ?_⟩⟩
+  · rintro ⟨k, h1, h2, _⟩
+    have := hk k h1
+    omega
+  · unfold Conn; rw [hcj]; simp
 
 /-- **each new point is attached to the connected, unsaturated point that minimises edge length plus
 `bf` × that point's path length** (ties: the first in row-major order) — whenever some point is still
@@ -61,13 +117,424 @@ theorem greedy_step (dis : List (List Rat)) (bf : Rat) (n : Nat) (limit : Option
     let ij := argmin dis bf s n
     ij.1 < n ∧ ij.2 < n ∧ Open s ij.1 ij.2 ∧
     ∀ i j, i < n → j < n → Open s i j → cellCost dis bf s ij.1 ij.2 ≤ cellCost dis bf s i j := by
-  sorry
+  exact argmin_spec dis bf s n (exists_open dis n limit excl s hi hk hmore)
+
+/-! ### following parents -/
+private theorem up_succ (s : St) (d j : Nat) :
+    up s (d+1) j = if s.pid.getD j (-1) = -1 then -1 else up s d (s.pid.getD j (-1)).toNat := by
+  rw [up]; split <;> simp_all
+
+private theorem up_add (s : St) : ∀ (m a x : Nat), up s m a = (x : Int) → ∀ k, up s (m + k) a = up s k x := by
+  intro m
+  induction m with
+  | zero =>
+    intro a x h k
+    have : a = x := by simpa [up] using h
+    subst this; simp
+  | succ m ih =>
+    intro a x h k
+    rw [up_succ] at h
+    have e : m + 1 + k = (m + k) + 1 := by omega
+    rw [e, up_succ]
+    split at h
+    · omega
+    · rename_i hne
+      rw [if_neg hne]
+      exact ih _ x h k
+
+section static
+variable {dis : List (List Rat)} {n : Nat} {limit : Option Nat} {excl : Bool} {s : St}
+  (hi : Inv dis n limit excl s)
+include hi
+
+private theorem up_root (d : Nat) : up s (d+1) 0 = -1 := by
+  have h0 : 0 < n := by
+    obtain ⟨i, h, _⟩ := hi.fresh; omega
+  rw [up_succ, getD_dflt s.pid 0 (-1) 0 (by have := hi.len.1; omega), hi.root.2.1]; simp
+
+private theorem up_step (a : Nat) (ha : a < n) (hc : Conn s a) (h0 : a ≠ 0) :
+    ∃ p, p < n ∧ Conn s p ∧ s.pid.getD a (-1) = (p : Int) ∧ ∀ d, up s (d+1) a = up s d p := by
+  obtain ⟨p, hp, hpid, hcp, _⟩ := (hi.parent a ha h0).1 hc
+  have hpid' : s.pid.getD a (-1) = (p : Int) := by
+    rw [getD_dflt s.pid a (-1) 0 (by have := hi.len.1; omega), hpid]
+  refine ⟨p, hp, hcp, hpid', fun d => ?_⟩
+  rw [up_succ, hpid', if_neg (by omega)]; simp
+
+private theorem up_conn (a : Nat) (ha : a < n) (hc : Conn s a) :
+    ∀ m, (∀ m', m' < m → up s m' a ≠ 0) → ∃ x, x < n ∧ Conn s x ∧ up s m a = (x : Int) := by
+  intro m
+  induction m with
+  | zero => intro _; exact ⟨a, ha, hc, rfl⟩
+  | succ m ih =>
+    intro hmin
+    obtain ⟨x, hx, hcx, hux⟩ := ih (fun m' h => hmin m' (by omega))
+    have hx0 : x ≠ 0 := by
+      intro h; subst h; exact hmin m (by omega) hux
+    obtain ⟨p, hp, hcp, _, hstep⟩ := up_step hi x hx hcx hx0
+    refine ⟨p, hp, hcp, ?_⟩
+    rw [up_add s m a x hux 1, hstep 0]; rfl
+
+/-- a connected point reaches the root in fewer steps than there are points besides an unconnected one -/
+private theorem short_reach (a : Nat) (ha : a < n) (hc : Conn s a) (j : Nat) (hj : j < n) (hcj : ¬ Conn s j) :
+    ∃ d, d + 2 ≤ n ∧ up s d a = 0 := by
+  obtain ⟨d0, _, hd0⟩ := hi.reach a ha hc
+  have hex : ∃ d, up s d a = 0 := ⟨d0, hd0⟩
+  classical
+  let d := Nat.find hex
+  have hd : up s d a = 0 := Nat.find_spec hex
+  have hmin : ∀ m, m < d → up s m a ≠ 0 := fun m hm => Nat.find_min hex hm
+  refine ⟨d, ?_, hd⟩
+  -- the chain a = x₀, x₁, …, x_d together with `j` are `d + 2` distinct points below `n`
+  have hch : ∀ m, m ≤ d → ∃ x, x < n ∧ Conn s x ∧ up s m a = (x : Int) := fun m hm =>
+    up_conn hi a ha hc m (fun m' h => hmin m' (by omega))
+  have hinj : ∀ (m1 m2 x : Nat), m1 < m2 → m2 ≤ d → up s m1 a = (x : Int) → up s m2 a = (x : Int) → False := by
+    intro m1 m2 x h12 h2 e1 e2
+    have h3 := up_add s m2 a x e2 (d - m2)
+    have h4 := up_add s m1 a x e1 (d - m2)
+    have e : m2 + (d - m2) = d := by omega
+    rw [e, hd] at h3
+    exact hmin (m1 + (d - m2)) (by omega) (by rw [h4, ← h3])
+  let f : Nat → Nat := fun k => if k = 0 then j else (up s (k - 1) a).toNat
+  apply pigeon f (d + 2) n
+  · intro k hk
+    by_cases h : k = 0
+    · simp [f, h, hj]
+    · obtain ⟨x, hx, _, hux⟩ := hch (k - 1) (by omega)
+      simp [f, h, hux, hx]
+  · intro k1 k2 h1 h2 hf
+    by_cases z1 : k1 = 0 <;> by_cases z2 : k2 = 0
+    · omega
+    · obtain ⟨x, hx, hcx, hux⟩ := hch (k2 - 1) (by omega)
+      simp [f, z1, z2, hux] at hf
+      subst hf; exact absurd hcx hcj
+    · obtain ⟨x, hx, hcx, hux⟩ := hch (k1 - 1) (by omega)
+      simp [f, z1, z2, hux] at hf
+      subst hf; exact absurd hcx hcj
+    · obtain ⟨x1, _, _, hu1⟩ := hch (k1 - 1) (by omega)
+      obtain ⟨x2, _, _, hu2⟩ := hch (k2 - 1) (by omega)
+      simp [f, z1, z2, hu1, hu2] at hf
+      subst hf
+      rcases Nat.lt_trichotomy (k1 - 1) (k2 - 1) with h | h | h
+      · exact (hinj _ _ _ h (by omega) hu1 hu2).elim
+      · omega
+      · exact (hinj _ _ _ h (by omega) hu2 hu1).elim
+
+/-- nobody hangs from an unconnected point -/
+private theorem no_child (j : Nat) (hj : j < n) (hcj : ¬ Conn s j) : ∀ a, a < n → s.pid.getD a 0 ≠ (j : Int) := by
+  intro a ha
+  by_cases h0 : a = 0
+  · subst h0; rw [hi.root.2.1]; omega
+  · by_cases hc : Conn s a
+    · obtain ⟨p, _, hpid, hcp, _⟩ := (hi.parent a ha h0).1 hc
+      rw [hpid]
+      intro h
+      have : p = j := by omega
+      subst this; exact hcj hcp
+    · rw [(hi.parent a ha h0).2 hc]; omega
+
+end static
+
+/-! ### one step with a given open cell `(i, j)` -/
+section dynamic
+variable {dis : List (List Rat)} {n : Nat} {limit : Option Nat} {excl : Bool} {s : St} {i j : Nat}
+  (hi : Inv dis n limit excl s) (hk : ∀ k, limit = some k → 1 ≤ k)
+  (hin : i < n) (hjn : j < n) (hci : Conn s i) (hsi : ¬ Saturated limit excl s i) (hcj : ¬ Conn s j)
+include hi hk hin hjn hci hsi hcj
+
+private theorem ne_ij : i ≠ j := by
+  intro h; subst h; exact hcj hci
+
+private theorem pid_get (a : Nat) (d : Int) :
+    (stepAt dis limit excl n s i j).pid.getD a d = if a = j then (i : Int) else s.pid.getD a d := by
+  show (s.pid.set j (i : Int)).getD a d = _
+  rw [getD_set]
+  have := hi.len.1
+  by_cases h : a = j
+  · subst h; rw [if_pos ⟨rfl, by omega⟩, if_pos rfl]
+  · rw [if_neg (fun h' => h h'.1.symm), if_neg h]
+
+private theorem acc_get (a : Nat) (d : Rat) :
+    (stepAt dis limit excl n s i j).acc.getD a d =
+      if a = j then s.acc.getD i 0 + (dis.getD i []).getD j 0 else s.acc.getD a d := by
+  show (s.acc.set j _).getD a d = _
+  rw [getD_set]
+  have := hi.len.2.1
+  by_cases h : a = j
+  · subst h; rw [if_pos ⟨rfl, by omega⟩, if_pos rfl]
+  · rw [if_neg (fun h' => h h'.1.symm), if_neg h]
+
+private theorem furc_get (a : Nat) :
+    (stepAt dis limit excl n s i j).furc.getD a 0 = if a = i then s.furc.getD i 0 + 1 else s.furc.getD a 0 := by
+  show (s.furc.set i _).getD a 0 = _
+  rw [getD_set]
+  have := hi.len.2.2.1
+  by_cases h : a = i
+  · subst h; rw [if_pos ⟨rfl, by omega⟩, if_pos rfl]
+  · rw [if_neg (fun h' => h h'.1.symm), if_neg h]
+
+private theorem conn_get (a : Nat) : Conn (stepAt dis limit excl n s i j) a ↔ a = j ∨ Conn s a := by
+  show (s.conn.set j true).getD a false = true ↔ _
+  rw [getD_set]
+  have := hi.len.2.2.2.1
+  by_cases h : a = j
+  · subst h; rw [if_pos ⟨rfl, by omega⟩]; simp
+  · rw [if_neg (fun h' => h h'.1.symm)]; simp [h, Conn]
+
+private theorem sat_i : Saturated limit excl (stepAt dis limit excl n s i j) i ↔
+    satFlag limit excl (s.furc.getD i 0 + 1) i = true := by
+  rw [satFlag_iff]
+  unfold Saturated
+  rw [furc_get hi hk hin hjn hci hsi hcj i, if_pos rfl]
+
+private theorem sat_other (a : Nat) (h : a ≠ i) :
+    Saturated limit excl (stepAt dis limit excl n s i j) a ↔ Saturated limit excl s a := by
+  unfold Saturated
+  rw [furc_get hi hk hin hjn hci hsi hcj a, if_neg h]
+
+private theorem furc_j : s.furc.getD j 0 = 0 := by
+  rw [(hi.count j hjn).1]
+  unfold children
+  apply filter_eq_zero
+  intro a ha
+  exact no_child hi j hjn hcj a (by have := hi.len.1; omega)
+
+private theorem mask1_square : Square n
+    (if satFlag limit excl (s.furc.getD i 0 + 1) i then cross s.mask i (List.replicate n true) else s.mask) := by
+  have hsq : Square n s.mask := ⟨hi.len.2.2.2.2.1, hi.len.2.2.2.2.2⟩
+  split
+  · exact cross_square i hsq (by simp)
+  · exact hsq
+
+private theorem mask_eq : (stepAt dis limit excl n s i j).mask =
+    cross (if satFlag limit excl (s.furc.getD i 0 + 1) i then cross s.mask i (List.replicate n true) else s.mask)
+      j (s.conn.set j true) := by
+  have h := furc_get hi hk hin hjn hci hsi hcj i
+  rw [if_pos rfl] at h
+  show cross (if satFlag limit excl ((s.furc.set i (s.furc.getD i 0 + 1)).getD i 0) i then _ else _) j _ = _
+  have h' : (s.furc.set i (s.furc.getD i 0 + 1)).getD i 0 = s.furc.getD i 0 + 1 := h
+  rw [h']
+
+private theorem open_get (a b : Nat) (ha : a < n) (hb : b < n) :
+    Open (stepAt dis limit excl n s i j) a b ↔
+      b ≠ j ∧ (if a = j then ¬ Conn s b
+        else ¬ (satFlag limit excl (s.furc.getD i 0 + 1) i = true ∧ (a = i ∨ b = i)) ∧ Open s a b) := by
+  have hsq : Square n s.mask := ⟨hi.len.2.2.2.2.1, hi.len.2.2.2.2.2⟩
+  have hcl : (s.conn.set j true).length = n := by simp [hi.len.2.2.2.1]
+  unfold Open
+  rw [mask_eq hi hk hin hjn hci hsi hcj,
+    cross_get (mask1_square hi hk hin hjn hci hsi hcj) hcl hjn ha hb]
+  by_cases hbj : b = j
+  · simp [hbj]
+  · rw [if_neg hbj]
+    by_cases haj : a = j
+    · rw [if_pos haj, if_pos haj, getD_set, if_neg (fun h => hbj h.1.symm)]
+      rw [getD_dflt s.conn b true false (by have := hi.len.2.2.2.1; omega)]
+      simp [hbj, Conn]
+    · rw [if_neg haj, if_neg haj]
+      generalize satFlag limit excl (s.furc.getD i 0 + 1) i = fl
+      cases fl
+      · simp [hbj]
+      · rw [if_pos rfl, cross_get hsq (by simp) hin ha hb]
+        by_cases hbi : b = i
+        · simp [hbi]
+        · rw [if_neg hbi]
+          by_cases hai : a = i
+          · rw [if_pos hai, getD_replicate n b true true hb]; simp [hai]
+          · rw [if_neg hai]; simp [hbj, hai, hbi]
+
+private theorem step_mask (a b : Nat) (ha : a < n) (hb : b < n) :
+    Open (stepAt dis limit excl n s i j) a b ↔
+      (Conn (stepAt dis limit excl n s i j) a ∧ ¬ Saturated limit excl (stepAt dis limit excl n s i j) a ∧
+        ¬ Conn (stepAt dis limit excl n s i j) b) := by
+  have hne := ne_ij hi hk hin hjn hci hsi hcj
+  rw [open_get hi hk hin hjn hci hsi hcj a b ha hb, conn_get hi hk hin hjn hci hsi hcj a,
+    conn_get hi hk hin hjn hci hsi hcj b]
+  by_cases hbj : b = j
+  · simp [hbj]
+  · by_cases haj : a = j
+    · subst haj
+      have hns : ¬ Saturated limit excl (stepAt dis limit excl n s i a) a := by
+        rw [sat_other hi hk hin hjn hci hsi hcj a (Ne.symm hne)]
+        rintro ⟨k, h1, h2, _⟩
+        have := hk k h1
+        have := furc_j hi hk hin hjn hci hsi hcj
+        omega
+      simp [hbj, hns]
+    · rw [if_neg haj, hi.mask a b ha hb]
+      by_cases hai : a = i
+      · subst hai
+        rw [sat_i hi hk hin hjn hci hsi hcj]
+        simp [hbj, haj, hci, hsi]
+      · rw [sat_other hi hk hin hjn hci hsi hcj a hai]
+        by_cases hbi : b = i
+        · subst hbi; simp [hci]
+        · simp [hbj, haj, hai, hbi]
+
+end dynamic
+
+section dynamic2
+variable {dis : List (List Rat)} {n : Nat} {limit : Option Nat} {excl : Bool} {s : St} {i j : Nat}
+  (hi : Inv dis n limit excl s) (hk : ∀ k, limit = some k → 1 ≤ k)
+  (hin : i < n) (hjn : j < n) (hci : Conn s i) (hsi : ¬ Saturated limit excl s i) (hcj : ¬ Conn s j)
+include hi hk hin hjn hci hsi hcj
+
+private theorem step_len : (stepAt dis limit excl n s i j).pid.length = n ∧
+    (stepAt dis limit excl n s i j).acc.length = n ∧ (stepAt dis limit excl n s i j).furc.length = n ∧
+    (stepAt dis limit excl n s i j).conn.length = n ∧ (stepAt dis limit excl n s i j).mask.length = n ∧
+    ∀ r ∈ (stepAt dis limit excl n s i j).mask, r.length = n := by
+  have hcl : (s.conn.set j true).length = n := by simp [hi.len.2.2.2.1]
+  have hsq := cross_square j (mask1_square hi hk hin hjn hci hsi hcj) hcl
+  rw [← mask_eq hi hk hin hjn hci hsi hcj] at hsq
+  refine ⟨?_, ?_, ?_, hcl, hsq.1, hsq.2⟩
+  · show (s.pid.set j _).length = n
+    simp [hi.len.1]
+  · show (s.acc.set j _).length = n
+    simp [hi.len.2.1]
+  · show (s.furc.set i _).length = n
+    simp [hi.len.2.2.1]
+
+private theorem j_ne_zero : j ≠ 0 := by
+  intro h; subst h; exact hcj hi.root.1
+
+private theorem step_root : Conn (stepAt dis limit excl n s i j) 0 ∧
+    (stepAt dis limit excl n s i j).pid.getD 0 0 = -1 ∧ (stepAt dis limit excl n s i j).acc.getD 0 1 = 0 := by
+  have hj0 := j_ne_zero hi hk hin hjn hci hsi hcj
+  refine ⟨(conn_get hi hk hin hjn hci hsi hcj 0).mpr (Or.inr hi.root.1), ?_, ?_⟩
+  · rw [pid_get hi hk hin hjn hci hsi hcj, if_neg (Ne.symm hj0)]; exact hi.root.2.1
+  · rw [acc_get hi hk hin hjn hci hsi hcj, if_neg (Ne.symm hj0)]; exact hi.root.2.2
+
+private theorem step_parent (a : Nat) (ha : a < n) (ha0 : a ≠ 0) :
+    (Conn (stepAt dis limit excl n s i j) a → ∃ p, p < n ∧ (stepAt dis limit excl n s i j).pid.getD a 0 = (p : Int) ∧
+      Conn (stepAt dis limit excl n s i j) p ∧
+      (stepAt dis limit excl n s i j).acc.getD a 0 =
+        (stepAt dis limit excl n s i j).acc.getD p 0 + (dis.getD p []).getD a 0) ∧
+    (¬ Conn (stepAt dis limit excl n s i j) a → (stepAt dis limit excl n s i j).pid.getD a 0 = -1) := by
+  have hne := ne_ij hi hk hin hjn hci hsi hcj
+  simp only [conn_get hi hk hin hjn hci hsi hcj, pid_get hi hk hin hjn hci hsi hcj,
+    acc_get hi hk hin hjn hci hsi hcj]
+  constructor
+  · intro hc
+    by_cases haj : a = j
+    · subst haj
+      exact ⟨i, hin, by rw [if_pos rfl], Or.inr hci, by rw [if_pos rfl, if_neg hne]⟩
+    · have hca : Conn s a := hc.resolve_left haj
+      obtain ⟨p, hp, hpid, hcp, hacc⟩ := (hi.parent a ha ha0).1 hca
+      have hpj : p ≠ j := by intro h; subst h; exact hcj hcp
+      exact ⟨p, hp, by rw [if_neg haj]; exact hpid, Or.inr hcp, by rw [if_neg haj, if_neg hpj]; exact hacc⟩
+  · intro hc
+    have haj : a ≠ j := fun h => hc (Or.inl h)
+    have hca : ¬ Conn s a := fun h => hc (Or.inr h)
+    rw [if_neg haj]
+    exact (hi.parent a ha ha0).2 hca
+
+private theorem up_congr : ∀ d a, a < n → Conn s a → up (stepAt dis limit excl n s i j) d a = up s d a := by
+  intro d
+  induction d with
+  | zero => intro a _ _; rfl
+  | succ d ih =>
+    intro a ha hc
+    have haj : a ≠ j := by intro h; subst h; exact hcj hc
+    by_cases ha0 : a = 0
+    · subst ha0
+      rw [up_root hi, up_succ, pid_get hi hk hin hjn hci hsi hcj, if_neg haj,
+        getD_dflt s.pid 0 (-1) 0 (by have := hi.len.1; omega), hi.root.2.1]
+      simp
+    · obtain ⟨p, hp, hcp, hpid, hstep⟩ := up_step hi a ha hc ha0
+      rw [hstep d, up_succ, pid_get hi hk hin hjn hci hsi hcj, if_neg haj, hpid, if_neg (by omega)]
+      simpa using ih p hp hcp
+
+private theorem step_reach (a : Nat) (ha : a < n) (hc : Conn (stepAt dis limit excl n s i j) a) :
+    ∃ d, d ≤ n ∧ up (stepAt dis limit excl n s i j) d a = 0 := by
+  rw [conn_get hi hk hin hjn hci hsi hcj] at hc
+  by_cases haj : a = j
+  · subst haj
+    obtain ⟨d, hd, hu⟩ := short_reach hi i hin hci a hjn hcj
+    refine ⟨d + 1, by omega, ?_⟩
+    rw [up_succ, pid_get hi hk hin hjn hci hsi hcj, if_pos rfl, if_neg (by omega)]
+    simpa [up_congr hi hk hin hjn hci hsi hcj d i hin hci] using hu
+  · have hca : Conn s a := hc.resolve_left haj
+    obtain ⟨d, hd, hu⟩ := hi.reach a ha hca
+    exact ⟨d, hd, by rw [up_congr hi hk hin hjn hci hsi hcj d a ha hca]; exact hu⟩
+
+private theorem step_fresh : ∃ a, a < n ∧ Conn (stepAt dis limit excl n s i j) a ∧
+    (stepAt dis limit excl n s i j).furc.getD a 0 = 0 := by
+  have hne := ne_ij hi hk hin hjn hci hsi hcj
+  refine ⟨j, hjn, (conn_get hi hk hin hjn hci hsi hcj j).mpr (Or.inl rfl), ?_⟩
+  rw [furc_get hi hk hin hjn hci hsi hcj, if_neg (Ne.symm hne)]
+  exact furc_j hi hk hin hjn hci hsi hcj
+
+private theorem step_count (a : Nat) (ha : a < n) :
+    (stepAt dis limit excl n s i j).furc.getD a 0 = children (stepAt dis limit excl n s i j) a ∧
+    (∀ k, limit = some k → 1 ≤ k → (excl = false ∨ a ≠ 0) → (stepAt dis limit excl n s i j).furc.getD a 0 ≤ k) := by
+  have hch : children (stepAt dis limit excl n s i j) a = children s a + if a = i then 1 else 0 := by
+    show ((s.pid.set j (i : Int)).filter (· = (a : Int))).length = _
+    rw [count_set_new s.pid j i a (by have := hi.len.1; omega)
+      (by
+        have := (hi.parent j hjn (j_ne_zero hi hk hin hjn hci hsi hcj)).2 hcj
+        rw [this]; omega)]
+    unfold children
+    by_cases h : a = i
+    · subst h; simp
+    · have : ¬ ((i : Int) = (a : Int)) := by omega
+      simp [h, this]
+  rw [furc_get hi hk hin hjn hci hsi hcj, hch]
+  by_cases h : a = i
+  · subst h
+    rw [if_pos rfl, if_pos rfl]
+    refine ⟨by rw [(hi.count a ha).1], ?_⟩
+    intro k hl h1 hex
+    by_contra hc
+    exact hsi ⟨k, hl, by omega, hex⟩
+  · rw [if_neg h, if_neg h]
+    exact ⟨by rw [(hi.count a ha).1]; rfl, (hi.count a ha).2⟩
+
+private theorem step_nconn : nconn (stepAt dis limit excl n s i j) = nconn s + 1 := by
+  show ((s.conn.set j true).filter id).length = _
+  apply filter_set_true s.conn j (by have := hi.len.2.2.2.1; omega)
+  simpa [Conn] using hcj
+
+private theorem stepAt_inv : Inv dis n limit excl (stepAt dis limit excl n s i j) :=
+  ⟨step_len hi hk hin hjn hci hsi hcj, step_root hi hk hin hjn hci hsi hcj,
+   step_mask hi hk hin hjn hci hsi hcj, step_parent hi hk hin hjn hci hsi hcj,
+   step_reach hi hk hin hjn hci hsi hcj, step_fresh hi hk hin hjn hci hsi hcj,
+   step_count hi hk hin hjn hci hsi hcj⟩
+
+end dynamic2
+
 
 /-- the invariant is preserved, and one more point gets connected -/
 theorem step_inv (dis : List (List Rat)) (bf : Rat) (n : Nat) (limit : Option Nat) (excl : Bool) (s : St)
     (hi : Inv dis n limit excl s) (hk : ∀ k, limit = some k → 1 ≤ k) (hmore : nconn s < n) (hpos : 0 < nconn s) :
     Inv dis n limit excl (step dis bf limit excl n s) ∧ nconn (step dis bf limit excl n s) = nconn s + 1 := by
-  sorry
+  obtain ⟨h1, h2, h3, _⟩ := greedy_step dis bf n limit excl s hi hk hmore hpos
+  obtain ⟨hci, hsi, hcj⟩ := (hi.mask _ _ h1 h2).mp h3
+  rw [step_eq]
+  exact ⟨stepAt_inv hi hk h1 h2 hci hsi hcj, step_nconn hi hk h1 h2 hci hsi hcj⟩
+
+private theorem run_inv (dis : List (List Rat)) (bf : Rat) (n : Nat) (limit : Option Nat) (excl : Bool)
+    (hk : ∀ k, limit = some k → 1 ≤ k) :
+    ∀ (m : Nat) (s : St), Inv dis n limit excl s → 0 < nconn s → nconn s + m ≤ n →
+      Inv dis n limit excl (run dis bf limit excl n m s) ∧ nconn (run dis bf limit excl n m s) = nconn s + m := by
+  intro m
+  induction m with
+  | zero => intro s hi _ _; exact ⟨hi, rfl⟩
+  | succ m ih =>
+    intro s hi hpos hle
+    obtain ⟨h1, h2⟩ := step_inv dis bf n limit excl s hi hk (by omega) hpos
+    obtain ⟨h3, h4⟩ := ih _ h1 (by omega) (by omega)
+    exact ⟨h3, by rw [run, h4, h2]; omega⟩
+
+private theorem nconn_init (n : Nat) (hn : 0 < n) : nconn (init n) = 1 :=
+  filter_id_range_eq_zero n hn
+
+private theorem final_inv (dis : List (List Rat)) (bf : Rat) (n : Nat) (hn : 0 < n) (limit : Option Nat) (excl : Bool)
+    (hk : ∀ k, limit = some k → 1 ≤ k) :
+    Inv dis n limit excl (run dis bf limit excl n (n - 1) (init n)) ∧
+      nconn (run dis bf limit excl n (n - 1) (init n)) = n := by
+  have h0 := nconn_init n hn
+  obtain ⟨h1, h2⟩ := run_inv dis bf n limit excl hk (n - 1) (init n) (init_inv dis n hn limit excl hk)
+    (by omega) (by omega)
+  exact ⟨h1, by omega⟩
 
 /-- **a single tree containing every point exactly once, rooted at the first point**: after `n - 1`
 iterations every point is connected, has one parent (point 0 none) and reaches point 0 -/
@@ -77,13 +544,26 @@ theorem spanning (dis : List (List Rat)) (bf : Rat) (n : Nat) (hn : 0 < n) (limi
     Inv dis n limit excl s ∧ (∀ j, j < n → Conn s j) ∧
     s.pid.getD 0 0 = -1 ∧ (∀ j, j < n → j ≠ 0 → ∃ i, i < n ∧ s.pid.getD j 0 = (i : Int)) ∧
     (∀ j, j < n → ∃ d, d ≤ n ∧ up s d j = 0) := by
-  sorry
+  intro s
+  obtain ⟨hi, hc⟩ := final_inv dis bf n hn limit excl hk
+  have hall : ∀ j, j < n → Conn s j := by
+    intro j hj
+    have hlen : s.conn.length = n := hi.len.2.2.2.1
+    exact all_true_of_filter_eq s.conn (by rw [hlen]; exact hc) j (by omega)
+  refine ⟨hi, hall, hi.root.2.1, ?_, fun j hj => hi.reach j hj (hall j hj)⟩
+  intro j hj hj0
+  obtain ⟨p, hp, hpid, _⟩ := (hi.parent j hj hj0).1 (hall j hj)
+  exact ⟨p, hp, hpid⟩
 
 /-- **with a branching limit `k` no node other than the (optionally exempt) root gets more than `k` children** -/
 theorem branching_limit (dis : List (List Rat)) (bf : Rat) (n : Nat) (hn : 0 < n) (k : Nat) (hk : 1 ≤ k) (excl : Bool)
     (i : Nat) (hi : i < n) (hex : excl = false ∨ i ≠ 0) :
     children (run dis bf (some k) excl n (n - 1) (init n)) i ≤ k := by
-  sorry
+  have hk' : ∀ k', some k = some k' → 1 ≤ k' := by intro k' h; cases h; exact hk
+  obtain ⟨hinv, _⟩ := final_inv dis bf n hn (some k) excl hk'
+  have := hinv.count i hi
+  rw [← this.1]
+  exact this.2 k rfl hk hex
 
 /-- **Prim's step**: without balancing factor and without limit the chosen edge is a lightest edge between
 the connected and the unconnected points (the cut property; that repeating it yields a minimum spanning
@@ -94,7 +574,14 @@ theorem prim_step_partial (dis : List (List Rat)) (n : Nat) (excl : Bool) (s : S
     Conn s ij.1 ∧ ¬ Conn s ij.2 ∧
     ∀ i j, i < n → j < n → Conn s i → ¬ Conn s j →
       (dis.getD ij.1 []).getD ij.2 0 ≤ (dis.getD i []).getD j 0 := by
-  sorry
+  have hk : ∀ k, (none : Option Nat) = some k → 1 ≤ k := by intro k h; cases h
+  obtain ⟨h1, h2, h3, h4⟩ := greedy_step dis 0 n none excl s hi hk hmore hpos
+  have hns : ∀ i, ¬ Saturated none excl s i := by rintro i ⟨k, h, _⟩; cases h
+  have ho := (hi.mask _ _ h1 h2).mp h3
+  refine ⟨ho.1, ho.2.2, ?_⟩
+  intro i j hin hjn hci hcj
+  have := h4 i j hin hjn ((hi.mask i j hin hjn).mpr ⟨hci, hns i, hcj⟩)
+  simpa [cellCost] using this
 
 -- non-vacuity / concrete behaviour: 4 points on a line at 0, 10, 11, 1
 def exDis : List (List Rat) := [[0, 10, 11, 1], [10, 0, 1, 9], [11, 1, 0, 10], [1, 9, 10, 0]]
